@@ -11,6 +11,12 @@ def sha(prefix):
     raise SystemExit("no commit with subject prefix: " + prefix)
 
 FIXED = [
+ ("KF-LC-1", "C05", "LC-assert-newer-lifecycle-confirmed-before-older", "fix: don't assert if a lifecycle that was confirmed",
+  "lifecycle detection panicked (assert 'buffered_lcs does not contain', lifecycle/mod.rs) when a lifecycle that was already confirmed had to be merged into the still buffered previous lifecycle of the same ECU (5-message trace: ts 0 @200.0 s, ts 37.6 ms @200.06 s, ts 0 @227.8 s, ts 119.4 s @254.3 s, ts 172.1 s @307.0 s); every property that runs the stage (C03, C05-C08, C10, C13-C16, C19) saw the thread die", None),
+ ("KF-C07-1", "C07", "C07-phantom-lifecycle", "fix: remove a merged lifecycle from the published lifecycles",
+  "a lifecycle confirmed (published) while all its messages were still queued behind another ECU's buffered lifecycle and merged afterwards stayed in the published table with its old count although no delivered message refers to it (6-message two-ECU trace)", None),
+ ("KF-C07-2", "C07", "C07-listing-comparator-not-total", "fix: get_sorted_lifecycles_as_vec sorts by a key",
+  "get_sorted_lifecycles_as_vec used a comparator that is not a total order (resume link vs start time): std's sort panicked ('user-provided comparison function does not correctly implement a total order') or listed a resumed lifecycle before its origin", None),
  ("KF-C01-1", "C01", "C01-tiny-serial-tail", "fix: find a serial header msg",
   "a stream whose first serial-header message starts less than 20 bytes before the end (e.g. one 12-byte DLS message alone) yielded no message: the iterator stopped at the storage parser's NotEnoughData before trying the serial parser",
   "replays/examples/C01-tiny-serial-tail.json"),
@@ -27,6 +33,9 @@ FIXED = [
 ]
 OPEN = [
  # (id, property, key, what, replay)
+ ("KF-C08-1", "C08", "C08-late-connect-boots-merged",
+  "two consecutive boots of one ECU are merged into one lifecycle when the calculated start of the later boot (power-on + its constant delay) is not after the calculated end of the earlier one (power-on + delay + largest uptime), i.e. the earlier boot's transport delay exceeds the later one's by at least the recording gap ('recorder connected late'); cascades through the merged range included. Heuristic of the detector (membership = calculated start <= current end); no small safe repair.",
+  "replays/examples/C08-late-connect-boots-merged.json"),
 ]
 out = []
 for (i, p, k, subj, what, rp) in FIXED:
